@@ -324,8 +324,9 @@ class LockAnalysis:
             if t in held:
                 held = held - {t}
                 dirty = frozenset(d for d in dirty if d[0] != t)
-                if t in assumed:
-                    released = released | {t}
+                # remembered as released (also when taken locally): a later use must not be explained away by
+                # assuming the lock was held at entry
+                released = released | {t}
                 ev('release', n, ctx, token=t, bad=False)
                 return (held, dirty, fresh, assumed, released, needs)
             if param_relative(t) and t not in released:
@@ -345,6 +346,7 @@ class LockAnalysis:
             ev('acquire', n, ctx, token=t, how=how, prov=prov, held=held, bad=bool(bad), what=bad, src=src,
                fresh=(t in fresh))
             held = held | {t}
+            released = released - {t}
             return (held, dirty, fresh, assumed, released, needs)
 
         def apply_summary(st, n, ctx, g):
@@ -631,7 +633,7 @@ class LockAnalysis:
         need = set()
         for (st, n, path, rtok) in exits:
             held, dirty, fresh, assumed, released, needs = st
-            rel = frozenset(t for t in released if param_relative(t))
+            rel = frozenset(t for t in released if param_relative(t) and t in assumed)
             keep = frozenset(t for t in held if t not in assumed)
             effects.append({'rel': rel, 'keep': keep, 'node': n, 'path': path, 'ret': rtok,
                             'held': held, 'assumed': assumed})
